@@ -379,7 +379,66 @@
         lemma_cong_canonical(wq, wv);
         assert(wv % q == wv);
     }
-    // (f) completeness: a signature that satisfies sign_spec for a key pair that satisfies keygen_spec makes verify_spec true
+    // (f) pieces of the per-coefficient argument, each with its own small query
+    pub proof fn lemma_c01_zs<const K: usize, const L: usize>(a: [[T; L]; K], sk: PrivateKey<K, L>, ys: Seq<Seq<int>>, c: R, sig: Seq<u8>,
+            beta: int, gamma1: int, gamma2: int, omega: int, lam4: int)
+        requires sign_attempt(a, sk, ys, c, sig, beta, gamma1, gamma2, omega, lam4),
+        ensures forall|l: int, m: int| 0 <= l < L && 0 <= m < 256 ==>
+            cong(#[trigger] sig_zs(sig, gamma1, lam4, L as int)[l][m], ys[l][m] + cmul(poly_ints(c.0), sk.s_1_hat_mont[l].0)[m]),
+    {
+        let cs = poly_ints(c.0); let zs = sig_zs(sig, gamma1, lam4, L as int); let q = Q as int;
+        assert forall|l: int, m: int| 0 <= l < L && 0 <= m < 256 implies cong(#[trigger] zs[l][m], ys[l][m] + cmul(cs, sk.s_1_hat_mont[l].0)[m]) by {
+            let x = ys[l][m] + cmul(cs, sk.s_1_hat_mont[l].0)[m];
+            assert(zs[l][m] == sig_z(sig, gamma1, lam4, l, m));
+            assert(sig_z(sig, gamma1, lam4, l, m) == mod_pm(x, q));
+            lemma_cong_mod(x);
+            if x % q > q / 2 { lemma_cong_from(x % q - q, x % q, -1); lemma_cong_trans(x % q - q, x % q, x); }
+        }
+    }
+    pub proof fn lemma_c01_cs2_bound(c: R, shm: [i32; 256], s: Seq<int>, eta: int, tau: int, n: int)
+        requires s.len() == 256, 0 <= n < 256, eta >= 0, 0 <= tau * eta < 4_000_000, c_small(c, tau),
+            forall|m: int| 0 <= m < 256 ==> mont_of(#[trigger] shm[m] as int, spec_ntt(s)[m]), forall|m: int| 0 <= m < 256 ==> -eta <= #[trigger] s[m] <= eta,
+        ensures spec_abs(mod_pm(cmul(poly_ints(c.0), shm)[n], Q as int)) <= tau * eta,
+    {
+        let cs = poly_ints(c.0); let q = Q as int; let beta = tau * eta;
+        lemma_cmul_is_ring_mul(cs, shm, s);
+        lemma_ring_mul_bound(c, s, eta, 256);
+        let rm = ring_mul(cs, s)[n];
+        assert(-beta <= rm <= beta);
+        assert(cmul(cs, shm)[n] == rm % q);
+        if rm < 0 { assert((rm + q) % q == rm + q); assert(rm % q == rm + q); } else { assert(rm % q == rm); }
+    }
+    #[verifier::rlimit(150)]
+    pub proof fn lemma_c01_w1_eq<const K: usize, const L: usize>(a: [[T; L]; K], pk: PublicKey<K, L>, sk: PrivateKey<K, L>, eta: int, ys: Seq<Seq<int>>, c: R,
+            s1v: Seq<Seq<int>>, s2v: Seq<Seq<int>>, sig: Seq<u8>, beta: int, gamma1: int, gamma2: int, omega: int, tau: int, lam4: int, k: int, n: int)
+        requires eta_ok(eta), 1 <= K <= 8, 1 <= L <= 8, gamma2_ok(gamma2), beta == tau * eta, 0 <= beta < gamma2, 0 <= k < K, 0 <= n < 256,
+            ys.len() == L, forall|l: int| 0 <= l < L ==> (#[trigger] ys[l]).len() == 256,
+            sk_coefs_ok(sk, eta, s1v, s2v, kg_t0(a, s1v, s2v)), pk_coefs_ok(pk, kg_t1(a, s1v, s2v)), c_small(c, tau),
+            sign_attempt(a, sk, ys, c, sig, beta, gamma1, gamma2, omega, lam4),
+        ensures vfy_w1fn(a, c, pk.t1_d2_hat_mont, sig, gamma1, gamma2, omega, lam4)(k, n) == sgn_w1fn(a, ys, gamma2)(k, n),
+    {
+        let cs = poly_ints(c.0);
+        let zs = sig_zs(sig, gamma1, lam4, L as int);
+        lemma_c01_zs(a, sk, ys, c, sig, beta, gamma1, gamma2, omega, lam4);
+        lemma_wapprox(a, pk, sk, eta, ys, zs, cs, s1v, s2v, k);
+        let wv = sgn_w(a, ys, k)[n];
+        let cs2v = cmul(cs, sk.s_2_hat_mont[k].0)[n]; let ct0v = cmul(cs, sk.t_0_hat_mont[k].0)[n];
+        let wp = vfy_w(a, zs, cs, pk.t1_d2_hat_mont, k)[n];
+        lemma_cmul_len2(cs, sk.s_2_hat_mont[k].0); lemma_cmul_len2(cs, sk.t_0_hat_mont[k].0);
+        assert(0 <= wv < Q) by {
+            reveal(spec_invntt);
+            let v = intt_layers(sgn_wbar_seq(a, ys, k), 0);
+            lemma_cong_mod(8_347_681 * v[n]);
+        }
+        assert(s2v[k].len() == 256);
+        assert forall|m: int| 0 <= m < 256 implies mont_of(#[trigger] sk.s_2_hat_mont[k].0[m] as int, spec_ntt(s2v[k])[m]) by { }
+        assert forall|m: int| 0 <= m < 256 implies -eta <= #[trigger] s2v[k][m] <= eta by { }
+        lemma_c01_cs2_bound(c, sk.s_2_hat_mont[k].0, s2v[k], eta, tau, n);
+        let h = sig_h(sig, gamma1, lam4, L as int, omega, k, n);
+        lemma_w1_coeff(gamma2, beta, wv, cs2v, ct0v, wp, h);
+    }
+    // (g) completeness: a signature that satisfies sign_spec for a key pair that satisfies keygen_spec makes verify_spec true
+    #[verifier::rlimit(150)]
     pub proof fn lemma_c01<const K: usize, const L: usize>(xi: Seq<u8>, eta: int, pk: PublicKey<K, L>, sk: PrivateKey<K, L>, sig: Seq<u8>, mu: Seq<u8>, rnd: Seq<u8>,
             beta: int, gamma1: int, gamma2: int, omega: int, tau: int, lam4: int)
         requires eta_ok(eta), 1 <= K <= 8, 1 <= L <= 8, gamma2_ok(gamma2), tau >= 0, beta == tau * eta, 0 <= beta < gamma2,
@@ -398,45 +457,12 @@
         let ys = mask_ys(rhopp, kappa, gamma1, L as int);
         assert(sign_wit(sk, sig, tau, lam4, a, c, kappa) && sign_commit(a, ys, mu, sig, gamma2, lam4) && sign_attempt(a, sk, ys, c, sig, beta, gamma1, gamma2, omega, lam4));
         lemma_expand_a_unique(sk.rho@, a, a0);
-        let cs = poly_ints(c.0);
         let s1v = vec_ints(s1); let s2v = vec_ints(s2);
-        let zs = sig_zs(sig, gamma1, lam4, L as int);
-        let q = Q as int;
         assert(ys.len() == L && forall|l: int| 0 <= l < L ==> (#[trigger] ys[l]).len() == 256) by { reveal(mask_ys); }
-        assert forall|l: int, n: int| 0 <= l < L && 0 <= n < 256 implies cong(#[trigger] zs[l][n], ys[l][n] + cmul(cs, sk.s_1_hat_mont[l].0)[n]) by {
-            let x = ys[l][n] + cmul(cs, sk.s_1_hat_mont[l].0)[n];
-            assert(zs[l][n] == sig_z(sig, gamma1, lam4, l, n));
-            assert(sig_z(sig, gamma1, lam4, l, n) == mod_pm(x, q));
-            lemma_cong_mod(x);
-            if x % q > q / 2 { lemma_cong_from(x % q - q, x % q, -1); lemma_cong_trans(x % q - q, x % q, x); }
-        }
         let w1s = sgn_w1fn(a, ys, gamma2);
         let w1v = vfy_w1fn(a, c, pk.t1_d2_hat_mont, sig, gamma1, gamma2, omega, lam4);
         assert forall|k: int, n: int| 0 <= k < K && 0 <= n < 256 implies #[trigger] w1v(k, n) == w1s(k, n) by {
-            lemma_wapprox(a, pk, sk, eta, ys, zs, cs, s1v, s2v, k);
-            let wv = sgn_w(a, ys, k)[n];
-            let cs2v = cmul(cs, sk.s_2_hat_mont[k].0)[n]; let ct0v = cmul(cs, sk.t_0_hat_mont[k].0)[n];
-            let wp = vfy_w(a, zs, cs, pk.t1_d2_hat_mont, k)[n];
-            lemma_cmul_len2(cs, sk.s_2_hat_mont[k].0); lemma_cmul_len2(cs, sk.t_0_hat_mont[k].0);
-            assert(0 <= wv < Q) by {
-                reveal(spec_invntt);
-                let v = intt_layers(sgn_wbar_seq(a, ys, k), 0);
-                lemma_cong_mod(8_347_681 * v[n]);
-            }
-            // ||c s2|| <= beta through the ring product
-            assert(s2v[k].len() == 256);
-            assert forall|m: int| 0 <= m < 256 implies mont_of(#[trigger] sk.s_2_hat_mont[k].0[m] as int, spec_ntt(s2v[k])[m]) by { }
-            lemma_cmul_is_ring_mul(cs, sk.s_2_hat_mont[k].0, s2v[k]);
-            assert forall|m: int| 0 <= m < 256 implies -eta <= #[trigger] s2v[k][m] <= eta by { }
-            lemma_ring_mul_bound(c, s2v[k], eta, 256);
-            let rm = ring_mul(cs, s2v[k])[n];
-            assert(-beta <= rm <= beta);
-            assert(cs2v == rm % q);
-            assert(spec_abs(mod_pm(cs2v, q)) <= beta) by {
-                if rm < 0 { assert((rm + q) % q == rm + q); assert(rm % q == rm + q); } else { assert(rm % q == rm); }
-            }
-            let h = sig_h(sig, gamma1, lam4, L as int, omega, k, n);
-            lemma_w1_coeff(gamma2, beta, wv, cs2v, ct0v, wp, h);
+            lemma_c01_w1_eq(a, pk, sk, eta, ys, c, s1v, s2v, sig, beta, gamma1, gamma2, omega, tau, lam4, k, n);
         }
         let w1b = choose|w1b: Seq<u8>| #[trigger] w1_fields_ok(w1b, gamma2, K as int, w1s) && sig.subrange(0, lam4) == stream_take(shake256(mu + w1b), 0, lam4);
         assert(w1_fields_ok(w1b, gamma2, K as int, w1v));
